@@ -129,4 +129,31 @@ def build (fs : FS) (cfs : CtxFS) (classes : Classes) (main : Str) (mainNs : Opt
     pure { tasks := tasks, reg := st.reg, next := st.next, nextCfg := cfgBase + cfgs.length }
   else .error .tooDeep
 
+def buildMultiAux (fs : FS) (cfs : CtxFS) (classes : Classes) (fuel : Nat) :
+    List (Str × Option CtxSrc) → List Str → Registry → Nat → Nat → Except Err (List Chain)
+  | [], _, _, _, _ => .ok []
+  | m :: rest, seen, reg, next, cfgBase =>
+    match mainName fs m.1 with
+    | .error e => .error e
+    | .ok nm =>
+      -- `assert config.name not in self.chains`
+      if seen.contains nm then .error .dupChain
+      else match build fs cfs classes m.1 none m.2 reg next cfgBase fuel with
+        | .error e => .error e
+        | .ok c => match buildMultiAux fs cfs classes fuel rest (nm :: seen) c.reg c.next c.nextCfg with
+          | .error e => .error e
+          | .ok cs => .ok (c :: cs)
+
+/-- `MultiChain(configs, parameter_mode=False)`: one registry `(task name, config file) ↦ object` shared by all member chains, in
+order; an object listed by several chains keeps the input table the LAST of them set -/
+def buildMulti (fs : FS) (cfs : CtxFS) (classes : Classes) (mains : List (Str × Option CtxSrc)) (fuel : Nat) : Except Err (List Chain) :=
+  match buildMultiAux fs cfs classes fuel mains [] [] 0 0 with
+  | .error e => .error e
+  | .ok cs =>
+    let all := cs.flatMap (fun c => c.tasks.map (fun t => (t.obj.id, t.inputs)))
+    .ok (cs.map (fun c => { c with tasks := c.tasks.map (fun t =>
+      match all.reverse.find? (fun p => p.1 == t.obj.id) with
+      | some p => { t with inputs := p.2 }
+      | none => t) }))
+
 end TCV.BuildNM
